@@ -1,7 +1,7 @@
 import RedoModel.Lemmas.DepsOod3
 import RedoModel.Lemmas.DepsShift4
 import RedoModel.Lemmas.DepsWF2
-import RedoModel.Props.C17
+import RedoModel.Props.C17a
 /-!
 # C17 (continued) — redo-ood is a lower bound of what the next redo-ifchange rebuilds; coverage of
 redo-targets / redo-sources
